@@ -49,6 +49,7 @@ type Clause struct {
 	Text  string
 	Line  int
 	When  *Expr
+	hit   bool // before/after/loop clauses: a matching site was seen while executing the function
 }
 
 type Block struct {
@@ -260,7 +261,7 @@ func loadContracts(path string) (*Contracts, error) {
 					return nil, fail(fmt.Errorf("loop ordinal: %v", err))
 				}
 				kind, r3 := splitWord(r2)
-				if kind != "invariant" && kind != "decreases" && kind != "modifies" {
+				if kind != "invariant" && kind != "decreases" && kind != "modifies" && kind != "exit" {
 					return nil, fail(fmt.Errorf("loop clause kind %q", kind))
 				}
 				cl.Kind = "loop-" + kind
@@ -268,7 +269,7 @@ func loadContracts(path string) (*Contracts, error) {
 				if kind == "modifies" {
 					cl.Names = splitNames(r3)
 				} else {
-					if kind == "invariant" {
+					if kind == "invariant" || kind == "exit" {
 						if k := labelEnd(r3); k > 0 {
 							cl.Label = strings.TrimSpace(r3[:k])
 							r3 = r3[k+1:]
